@@ -230,6 +230,14 @@ def make_term(spec):
 
 
 def run_script(case):
+    import io, contextlib, warnings
+    with warnings.catch_warnings():
+        warnings.simplefilter("ignore")
+        with contextlib.redirect_stdout(io.StringIO()):
+            return _run_script(case)
+
+
+def _run_script(case):
     """case: dict(solver, ndim, npop, seed, strategy, ops=[...]).  Returns dict(trace=[snapshot per op], steps=[inputs], tables)."""
     from mystic.monitors import Monitor
     kind = case["solver"]
